@@ -98,7 +98,7 @@ from .appnamespace import PRUNE_MOD, cardarr_axiom          # noqa: E402
 
 PAA_MOD = PRUNE_MOD + ["heap." + APPS, "alloc"] + APP_FIELDS
 c = contract("server.Server.prune_all_apps", cls="Server", params={"now": "real", "old": "real"},
-             modifies=PAA_MOD, tags=["C02", "C06", "C09", "C10", "C12", "C13", "C15", "C16", "C17", "C18"])
+             modifies=PAA_MOD, tags=["C01", "C02", "C03", "C05", "C06", "C07", "C08", "C09", "C10", "C12", "C13", "C15", "C16", "C17", "C18"])
 I.add_preserves(c)
 
 
@@ -186,7 +186,7 @@ def _(c):
     S0, S1 = c.pre, c.post
     old = c.a.t("old")
     for n, t in protected_kept(S0, S1, old):
-        yield "protected_kept." + n, t, ["C12", "C06"]
+        yield "protected_kept." + n, t, ["C12", "C06", "C01", "C03", "C05", "C07", "C08"]
     mb1 = S1.t(MB)
     # C13: whatever is left was active after `old` or is subscribed (and was touched): nothing idle survives
     yield "all_remaining_fresh", mb1.forall(lambda r: r.updated > old), ["C13"]
